@@ -120,7 +120,7 @@ func altNearGrid(g *Gen) float64 {
 	case 0:
 		base = float64(g.Int63n(1<<23)-(1<<22)) / 1024
 	case 1:
-		base = g.PickF(435, 100, 1000, 12.5, -50, 1, -1, 8848, 0.0009765625, 33554432, -1024, 2, 250.5)
+		base = g.PickF(435, 100, 1000, 12.5, -50, 1, -1, 8848, 0.0009765625, 33554431, -1024, 2, 250.5)
 	default:
 		base = float64(g.Int63n(20001) - 10000)
 	}
@@ -139,28 +139,38 @@ func altSubNano(g *Gen) float64 {
 	return (g.R.Float64()*2 - 1) * 1e-9
 }
 
+// AltMax is the vertical extent of the ID space and the altitude domain of the property: |alt| <= 2^25 m
+const AltMax = 33554432.0
+
 func altC18(g *Gen) (float64, string) {
-	switch k := g.Intn(25); {
-	case k < 7:
+	switch k := g.Intn(40); {
+	case k < 12:
 		return 0, "alt=0"
-	case k < 8:
-		return math.Copysign(0, -1), "alt=0"
 	case k < 13:
+		return math.Copysign(0, -1), "alt=0"
+	case k < 22:
 		return (g.R.Float64()*2 - 1) * 1000, "alt<1e3"
-	case k < 14:
+	case k < 24:
 		return g.PickF(1, -1, 0.5, -0.5, 1e-9, -1e-9, 5e-324, 100, -100, 999.9999, -420, 8848.86), "alt-special-small"
-	case k < 16:
+	case k < 26:
+		return (g.R.Float64()*2 - 1) * 9000, "alt<9e3"
+	case k < 28:
 		return math.Copysign(1000+g.R.Float64()*99000, g.R.Float64()-0.5), "alt<1e5"
-	case k < 18:
-		return (g.R.Float64()*2 - 1) * 33554432, "alt<2^25"
-	case k < 19:
-		return g.PickF(33554432, -33554432, 1e6, -1e6, 3e5, -3e5, 35786000), "alt-special-large"
-	case k < 20:
+	case k < 29:
+		return (g.R.Float64()*2 - 1) * AltMax, "alt<=2^25"
+	case k < 30:
+		return g.PickF(AltMax, -AltMax, 1e6, -1e6, 3e5, -3e5, 2e7, -5.9e6, -6e6, -6.1e6, -6.3e6, -6378137, -7e6), "alt-special-large"
+	case k < 31:
 		return -g.R.Float64() * 11000, "alt-negative"
-	case k < 23:
+	case k < 36:
 		return altNearGrid(g), "alt-near-2^-10-grid"
 	}
 	return altSubNano(g), "alt-sub-nanometre"
+}
+
+// finite altitudes outside +-2^25 m: outside the property's domain, the dispatch entry answers "skipped"
+func altBeyond(g *Gen) float64 {
+	return g.PickF(35786000, -35786000, 4e7, 1e10, -1e10, 1e300, -1e300, math.Nextafter(AltMax, math.Inf(1)), -math.Nextafter(AltMax, math.Inf(1)), math.MaxFloat64)
 }
 
 // a stored (valid) point over the whole domain
@@ -232,16 +242,36 @@ func areaOf(c int) box {
 	return world
 }
 
-var otherCodes = []int{4326, 4978, 900913, 4258, 3416, 3035, 31287, 31284, 31285, 31286, 31257, 31258, 31259, 4314, 27700, 4277, 4171,
-	2154, 4269, 6355, 6356, 6414, 32601, 32654, 32660, 32701, 32754, 32760, 3942, 3946, 3950, 31466, 31467, 31469, 25828, 25832, 25838}
 var unknownCodes = []int{1, 99999, 0, -1, 3395, 4325, 4327, 32600, 32661, 32700, 32761, 3941, 3951, 31465, 31470, 25827, 25839,
-	2147483647, -3857, 38570, 54004}
+	2147483647, -3857, 38570, 54004, -2147483648, 4979, 3858}
+
+// every code of the library's table (read from the library: all 167 are drawn), the world-wide ones more often
+var tableCodes = func() []int { c := wgs84.EPSG().Codes(); sort.Ints(c); return c }()
 
 func knownCode(g *Gen) int {
-	if g.Chance(0.25) {
-		return 32600 + 1 + g.Intn(60) + 100*g.Intn(2)
+	if g.Chance(0.2) {
+		return []int{4326, 4978, 900913}[g.Intn(3)]
 	}
-	return otherCodes[g.Intn(len(otherCodes))]
+	return tableCodes[g.Intn(len(tableCodes))]
+}
+func unknownCode(g *Gen) int {
+	if g.Chance(0.5) {
+		return unknownCodes[g.Intn(len(unknownCodes))]
+	}
+	for {
+		var c int
+		switch g.Intn(3) {
+		case 0:
+			c = g.Intn(100000)
+		case 1:
+			c = int(g.Int63n(1<<32) - (1 << 31))
+		default: // next to a table code
+			c = tableCodes[g.Intn(len(tableCodes))] + int(g.Pick(-2, -1, 1, 2, 10, 100))
+		}
+		if i := sort.SearchInts(tableCodes, c); i >= len(tableCodes) || tableCodes[i] != c {
+			return c
+		}
+	}
 }
 
 func pointIn(g *Gen, b box) (w.Val, string) {
@@ -263,12 +293,26 @@ func pointIn(g *Gen, b box) (w.Val, string) {
 
 func pointList(g *Gen, gen func() (w.Val, string)) (w.List, []string) {
 	k := g.Intn(7)
-	if g.Chance(0.2) {
+	ltag := ""
+	switch m := g.Intn(400); {
+	case m < 80:
 		k = 1
+	case m < 92:
+		k = 7 + g.Intn(24)
+		ltag = "npoints=7..30"
+	case m < 94:
+		k = 31 + g.Intn(270)
+		ltag = "npoints=31..300"
+	case m < 95:
+		k = 301 + g.Intn(1200)
+		ltag = "npoints=301..1500"
+	}
+	if ltag == "" {
+		ltag = Tag("npoints=%d", k)
 	}
 	l := make(w.List, k)
 	seen := map[string]bool{}
-	tags := []string{Tag("npoints=%d", k)}
+	tags := []string{ltag}
 	for i := range l {
 		v, ts := gen()
 		l[i] = v
@@ -345,6 +389,10 @@ func projList(g *Gen, repo *wgs84.Repository, crs int, gen func() (w.Val, string
 			y = g.PickF(2.1e7, -2.1e7, 2.00375083428e7, 1e9)
 			tags = append(tags, "y-beyond-square")
 		}
+		if g.Chance(0.03) { // eastings beyond the square are not refused: the library wraps them
+			x = math.Copysign(g.PickF(2.00375083428e7, 2.1e7, 3e7, 4.0075e7, 2.0037508342789244e7+g.R.Float64()*4e7), g.R.Float64()-0.5)
+			tags = append(tags, "x-beyond-square")
+		}
 		if crs == consts.OrthCrs && g.Chance(0.06) { // inside the square, within 3 mm of its edge
 			if g.Chance(0.5) {
 				x = math.Copysign(20037508.34+g.R.Float64()*0.00278, g.R.Float64()-0.5)
@@ -365,11 +413,25 @@ func projList(g *Gen, repo *wgs84.Repository, crs int, gen func() (w.Val, string
 		out = append(out, w.L(w.F(x), w.F(y), w.F(alt)))
 	}
 	out, t2 := adjacent(g, out)
-	return out, append(tags, t2...)
+	if g.Chance(0.012) && len(out) > 0 {
+		j := g.Intn(len(out))
+		e := w.AsList(out[j])
+		out[j] = w.L(e[0], e[1], w.F(altBeyond(g)))
+		t2 = append(t2, "alt-beyond-domain")
+	}
+	seen := map[string]bool{}
+	var uniq []string
+	for _, t := range append(tags, t2...) {
+		if !seen[t] {
+			seen[t] = true
+			uniq = append(uniq, t)
+		}
+	}
+	return out, uniq
 }
 
 func init() {
-	Scale["C18"] = 4000
+	Scale["C18"] = 2500
 	Registry["C18"] = func(r *run.Runner, g *Gen, n int) {
 		if d := os.Getenv("C18_CERT_DIR"); d != "" {
 			os.Exit(certMain(g, d))
@@ -387,6 +449,12 @@ func init() {
 			switch k := g.Intn(20); {
 			case k < 8: // there and back through EPSG:3857
 				l, tags := pointList(g, world)
+				if g.Chance(0.012) && len(l) > 0 {
+					j := g.Intn(len(l))
+					e := w.AsList(l[j])
+					l[j] = w.L(e[0], e[1], w.F(altBeyond(g)))
+					tags = append(tags, "alt-beyond-domain")
+				}
 				r.Run(run.Case{Prop: "C18", Fn: "ProjectRoundTrip", Args: []w.Val{l}, Tags: append(tags, "roundtrip-3857"), Trivial: len(l) == 0})
 			case k < 14: // forward
 				crs, ctag := consts.OrthCrs, "fwd-3857"
@@ -400,11 +468,31 @@ func init() {
 						gen = func() (w.Val, string) { return pointIn(g, b) }
 					}
 				default:
-					crs, ctag = unknownCodes[g.Intn(len(unknownCodes))], "fwd-unknown-code"
+					crs, ctag = unknownCode(g), "fwd-unknown-code"
+				}
+				if ctag == "fwd-other-code" && g.Chance(0.3) {
+					// points inside the CRS's area followed by one outside it: the error comes with a non-empty prefix
+					b := areaOf(crs)
+					if b != (box{-180, 180, -LatMax, LatMax}) {
+						inArea := func() (w.Val, string) { return pointIn(g, b) }
+						gen = func() (w.Val, string) {
+							if g.Chance(0.75) {
+								return inArea()
+							}
+							return validPoint(g)
+						}
+						ctag += ",fwd-mixed-in-and-out-of-area"
+					}
 				}
 				l, tags := pointList(g, gen)
+				if g.Chance(0.012) && len(l) > 0 {
+					j := g.Intn(len(l))
+					e := w.AsList(l[j])
+					l[j] = w.L(e[0], e[1], w.F(altBeyond(g)))
+					ctag += ",alt-beyond-domain"
+				}
 				r.Run(run.Case{Prop: "C18", Fn: "ConvertPointListToProjectedPointList", Args: []w.Val{l, w.I(int64(crs))},
-					Tags: append(tags, ctag), Trivial: len(l) == 0 && ctag != "fwd-unknown-code"})
+					Tags: append(tags, strings.Split(ctag, ",")...), Trivial: len(l) == 0 && !strings.HasPrefix(ctag, "fwd-unknown-code")})
 			default: // backward
 				crs, ctag := consts.OrthCrs, "back-3857"
 				gen := world
@@ -417,7 +505,7 @@ func init() {
 						gen = func() (w.Val, string) { return pointIn(g, b) }
 					}
 				default:
-					crs, ctag = unknownCodes[g.Intn(len(unknownCodes))], "back-unknown-code"
+					crs, ctag = unknownCode(g), "back-unknown-code"
 				}
 				src := crs
 				if ctag == "back-unknown-code" {
@@ -509,11 +597,16 @@ func certMain(g *Gen, dir string) int {
 	lineOf := map[int]int{}
 	line := 6
 	for len(ss) < n {
-		lon, lat := g.Lon(), g.Lat()
-		var alt float64 // the numeric claim is made at heights where the datum transform does not disturb it (|alt| < 1000 m here)
-		switch g.Intn(3) {
-		case 1:
-			alt = (g.R.Float64()*2 - 1) * 1000
+		// the same point stream as the judged cases (validPoint): the float reference depends on the latitude only and is certified for
+		// every sample; the observed x and y are certified where the nominal claim is made (|alt| < 1000 m: no excuse by the finding)
+		pv, _ := validPoint(g)
+		e := w.AsList(pv)
+		lon, lat, alt := w.AsFlt(e[0]), w.AsFlt(e[1]), w.AsFlt(e[2])
+		if math.Abs(alt) >= 1000 {
+			alt = 0
+			if g.Chance(0.5) {
+				alt = (g.R.Float64()*2 - 1) * 1000
+			}
 		}
 		p, _, ok := StoredPoint(lon, lat, alt)
 		if !ok {
